@@ -5,6 +5,7 @@ from __future__ import annotations
 
 import dataclasses
 import importlib
+import json
 from dataclasses import dataclass, field
 from typing import TYPE_CHECKING, Any
 
@@ -150,6 +151,7 @@ class BrokerState:
                     waiting_for_event=f"{waiter.waiting_for_event.__module__}.{waiter.waiting_for_event.__name__}",
                     has_requirements=bool(len(waiter.requirements))
                     or waiter.has_requirements,
+                    requirements=_json_safe_requirements(waiter.requirements),
                     resolved_event=serializer.serialize(waiter.resolved_event)
                     if waiter.resolved_event
                     else None,
@@ -237,7 +239,7 @@ class BrokerState:
                         waiter_id=waiter_data.waiter_id,
                         event=serializer.deserialize(waiter_data.event),
                         waiting_for_event=waiting_for_event,
-                        requirements={},
+                        requirements=dict(waiter_data.requirements),
                         has_requirements=waiter_data.has_requirements,
                         resolved_event=serializer.deserialize(
                             waiter_data.resolved_event
@@ -249,6 +251,14 @@ class BrokerState:
                 )
 
         return base_state
+
+
+def _json_safe_requirements(requirements: dict[str, Any]) -> dict[str, Any]:
+    """Requirements are arbitrary user values: persist them only when they are plain JSON."""
+    try:
+        return json.loads(json.dumps(requirements))
+    except (TypeError, ValueError):
+        return {}
 
 
 def _import_event_type(qualified_name: str) -> type[Event]:
